@@ -258,38 +258,47 @@ Section Scripts.
     | None => None
     end.
 
-  (* NodeBase._prepare_new_relative for the first offered node *)
-  Definition prepare (ctx : nid) (src : nsrc) (k : nid -> prog) : prog :=
-    match src with
-    | SStr fresh s => Upd (UNewText fresh s) (k fresh)
-    | STag fresh name =>
-        Ask (fun w => match tagdef_ctx w ctx with
-                      | Some (c, ns) => Upd (UNewTag c fresh ns name) (k fresh)
-                      | None => Ret (Crash EAttributeError)
-                      end)
-    | SNode n => Ask (fun w => if lone w n then k n else Ret (Rejected EInvalidOperation))
-    end.
-
-  (* _validate_sibling_operation (NodeBase and TagNode) *)
-  Definition validate_sibling (x n : nid) (k : prog) : prog :=
+  (* _validate_sibling_operation (NodeBase and TagNode); nk: the kind of the node to be added *)
+  Definition validate_sibling (x : nid) (nk : nkind) (k : prog) : prog :=
     Ask (fun w =>
       match w_parent w x with
       | Some _ => k
       | None =>
-          if kind_is w n is_cpik && (kind_is w x is_cpik || is_doc_root w x)
+          if is_cpik nk && (kind_is w x is_cpik || is_doc_root w x)
           then Ret (Crash EUnmodelled)        (* comments / PIs next to a root: not covered by this model *)
           else Ret (Rejected (if kind_is w x (nkind_eqb NTag) then ETypeError else EInvalidOperation))
       end).
+  Definition validate_opt (sib : option nid) (nk : nkind) (k : prog) : prog :=
+    match sib with Some x => validate_sibling x nk k | None => k end.
 
   (* adding below or next to one of its own descendants: lxml refuses, after delb has begun (finding 21) *)
   Definition no_cycle (x n : nid) (k : prog) : prog :=
     Ask (fun w => if is_ancestor_or_self w n x then Ret (Crash EValueError) else k).
 
+  (* NodeBase._prepare_new_relative for the first offered node, followed (sib = Some x) by x's
+     _validate_sibling_operation; objects for strings and tag() definitions are only recorded once nothing can
+     refuse the call any more (an unreferenced new object is not observable) *)
+  Definition prepare (ctx : nid) (sib : option nid) (src : nsrc) (k : nid -> prog) : prog :=
+    match src with
+    | SStr fresh s => validate_opt sib NText (Upd (UNewText fresh s) (k fresh))
+    | STag fresh name =>
+        Ask (fun w => match tagdef_ctx w ctx with
+                      | Some (c, ns) => validate_opt sib NTag (Upd (UNewTag c fresh ns name) (k fresh))
+                      | None => Ret (Crash EAttributeError)
+                      end)
+    | SNode n =>
+        Ask (fun w => if lone w n
+                      then match w_kind w n with
+                           | Some nk => validate_opt sib nk (no_cycle ctx n (k n))
+                           | None => Ret (Crash EUnmodelled)
+                           end
+                      else Ret (Rejected EInvalidOperation))
+    end.
+
   Fixpoint add_following (x : nid) (srcs : list nsrc) : prog :=
     match srcs with
     | [] => Ret ROk
-    | src :: q =>
-        prepare x src (fun n => validate_sibling x n (no_cycle x n (Upd (UAddFollowing x n) (add_following n q))))
+    | src :: q => prepare x (Some x) src (fun n => Upd (UAddFollowing x n) (add_following n q))
     end.
 
   (* the nearest preceding sibling visible under F *)
@@ -325,7 +334,7 @@ Section Scripts.
     match srcs with
     | [] => Ret ROk
     | src :: q =>
-        prepare x src (fun n => validate_sibling x n (no_cycle x n (add_preceding_one x n (add_preceding n q))))
+        prepare x (Some x) src (fun n => add_preceding_one x n (add_preceding n q))
     end.
 
   (* TagNode.__add_first_child *)
@@ -341,7 +350,7 @@ Section Scripts.
       | l :: _ => add_following l srcs
       | [] => match srcs with
               | [] => Ret ROk
-              | src :: q => prepare p src (fun n => no_cycle p n (add_first_child p n (add_following n q)))
+              | src :: q => prepare p None src (fun n => add_first_child p n (add_following n q))
               end
       end)).
 
@@ -367,12 +376,12 @@ Section Scripts.
                  match n with
                  | O => match vis_children w p with
                         | y :: _ => (* self[0].add_preceding_siblings(this) *)
-                            prepare y src (fun m => validate_sibling y m (no_cycle y m (add_preceding_one y m rest)))
-                        | [] => prepare p src (fun m => no_cycle p m (add_first_child p m rest))
+                            prepare y (Some y) src (fun m => add_preceding_one y m rest)
+                        | [] => prepare p None src (fun m => add_first_child p m rest)
                         end
                  | S n' => match nth_vis w p n' with
                            | Some y =>
-                               prepare y src (fun m => validate_sibling y m (no_cycle y m (Upd (UAddFollowing y m) rest)))
+                               prepare y (Some y) src (fun m => Upd (UAddFollowing y m) rest)
                            | None => Ret (Crash EIndexError)
                            end
                  end
@@ -418,7 +427,7 @@ Section Scripts2.
       match w_parent w x with
       | None => Ret (Rejected EInvalidOperation)
       | Some _ =>
-          prepare x src (fun n => validate_sibling x n (no_cycle x n (Upd (UAddFollowing x n) (detach x false))))
+          prepare x (Some x) src (fun n => Upd (UAddFollowing x n) (detach x false))
       end).
 
   (* index as __getitem__ resolves it *)
